@@ -261,17 +261,20 @@ Definition v3_weight (selected have_w have_wc : bool) (w wc : Ext) : Ext :=
   if selected then emul (v3_read have_w w) (v3_read have_wc wc) else Fin 1.
 
 (* ------------------------------------------------------------------ SPEC of the v4 weights (pointwise) *)
+(* "a tiny positive weight": the value documented in the kernel, 2^-32 (the model uses the constant regenerated from
+   the source; the theorems need bad_weight = spec_tiny) *)
+Definition spec_tiny : Qc := Q2Qc (1 # 4294967296).
 (* the scale factor the property asks for: 1/(a1 a2) for finite non-zero powers, else the tiny constant *)
 Definition spec_scale_div (a1 a2 : Ext) : Qc :=
   match a1, a2 with
-  | Fin x, Fin y => if is_zero x || is_zero y then bad_weight else (/ (x * y))%Qc
-  | _, _ => bad_weight
+  | Fin x, Fin y => if is_zero x || is_zero y then spec_tiny else (/ (x * y))%Qc
+  | _, _ => spec_tiny
   end.
 (* multiplying back: a1 a2 for finite powers (zero included), else the tiny constant *)
 Definition spec_scale_mul (a1 a2 : Ext) : Qc :=
   match a1, a2 with
   | Fin x, Fin y => (x * y)%Qc
-  | _, _ => bad_weight
+  | _, _ => spec_tiny
   end.
 Definition spec_weight (scaled : bool) (a1 a2 w wc : Ext) : Ext :=
   if scaled then emul w wc else emul (Fin (spec_scale_div a1 a2)) (emul w wc).
